@@ -20,10 +20,12 @@ def _nonempty(sel) -> bool:
     return isinstance(sel, list) or sel in ('ALL', 'REMAINING')
 
 
-def side(sts, mts, ports: List[str], other_known: List[str]):
-    """Judge one side.  `ports` are the exposed port names of this side, `other_known` names
-    the component has but that are not exposed on this side (injected ports, ports of the
-    other direction).  Returns (verdict, reason, mapping)."""
+def side(sts, mts, ports: List[str], other_known: List[str], other_side: List[str] = ()):
+    """Judge one side.  `ports` are the exposed port names of this side, `other_known` the
+    injected ports (the component has them, they are never exposed: naming one is left open),
+    `other_side` the exposed ports of the other direction (a provides selection that names a
+    requires port names a provides port the component does not have).
+    Returns (verdict, reason, mapping)."""
     unspecified: Optional[str] = None
     for sel in (sts, mts):
         if isinstance(sel, list) and (not sel or '' in sel):
@@ -33,8 +35,10 @@ def side(sts, mts, ports: List[str], other_known: List[str]):
         if name == '':
             continue
         if name not in ports:
+            if name in other_side:
+                return REJECT, f'names a port the component has on the other side only: {name}', None
             if name in other_known:
-                unspecified = unspecified or 'name matches only an injected/other-side port'
+                unspecified = unspecified or 'name matches only an injected port'
             else:
                 return REJECT, f'names a port the component does not have: {name}', None
     overlap = set(_names(sts)) & set(_names(mts))
@@ -69,9 +73,9 @@ def judge(provides_sel: dict, requires_sel: dict, provides: List[str], requires:
           injected: List[str]) -> Tuple[str, str, Optional[Dict[str, str]]]:
     """Judge a whole ports configuration against a component's port names."""
     pv, preason, pmap = side(provides_sel['sts'], provides_sel['mts'], provides,
-                             requires + injected)
+                             injected, requires)
     rv, rreason, rmap = side(requires_sel['sts'], requires_sel['mts'], requires,
-                             injected + provides)
+                             injected, provides)
     if pv == REJECT:
         return REJECT, 'provides: ' + preason, None
     if rv == REJECT:
